@@ -231,11 +231,21 @@ def _contract(call, val):
     return None
 
 
+def _instrument_random():
+    from sim import asyncexc
+    import types
+    from coba.random import CobaRandom
+    asyncexc.instrument([f for f in vars(CobaRandom).values() if isinstance(f, types.FunctionType)])
+
+
 def solo(seed, script):
     from coba.random import CobaRandom
     g = CobaRandom(seed)
     out = []
     for call in script:
+        if call[0] == "ctrl_c":
+            out.append(("arm",))
+            continue
         try:
             out.append(("v", do_call(g, call)))
         except Exception as e:
@@ -281,8 +291,11 @@ class C05:
     def gen(self, rng, tier, index):
         callers = []
         for _ in range(weighted(rng, [(2, 3), (3, 3), (4, 2), (5, 1)])):
-            callers.append({"seed": gen_seed(rng), "script": [gen_consumer(rng) if rng.random() < 0.08 else gen_call(rng) for _ in range(2 + rng.randrange(7))],
-                            "in_process": rng.random() < 0.3})
+            script = [gen_consumer(rng) if rng.random() < 0.08 else gen_call(rng) for _ in range(2 + rng.randrange(7))]
+            if rng.random() < 0.06:
+                # fault: a Ctrl-C lands at the k-th bytecode executed inside CobaRandom's own code during the following call
+                script.insert(rng.randrange(len(script)), ["ctrl_c", [weighted(rng, [(rng.randrange(1, 12), 2), (rng.randrange(1, 60), 2), (rng.randrange(1, 300), 1)])]])
+            callers.append({"seed": gen_seed(rng), "script": script, "in_process": rng.random() < 0.3})
         if rng.random() < 0.3 and len(callers) >= 2:
             callers[1]["seed"] = callers[0]["seed"]       # equal seeds must not couple the instances
         inter = []
@@ -314,12 +327,29 @@ class C05:
 
         def caller(i, c):
             g = gens[i] = CobaRandom(c["seed"])
+            armed = None
             for call in c["script"]:
                 sim.yield_("between-calls")
+                if call[0] == "ctrl_c":
+                    armed = call[1][0]
+                    observed[i].append(("arm",))
+                    continue
+                if armed is not None:
+                    from sim import asyncexc
+                    _instrument_random()
+                    asyncexc.arm(armed)
                 try:
                     observed[i].append(("v", do_call(g, call)))
+                except KeyboardInterrupt:
+                    observed[i].append(("i",))
                 except Exception as e:
                     observed[i].append(("e", type(e).__name__, str(e)[:80]))
+                finally:
+                    if armed is not None:
+                        fired, _ = asyncexc.disarm()
+                        armed = None
+                        if fired is not None:
+                            sim.count("fault.ctrl_c_between_bytecodes_of_a_call")
                 sim.log("call", i, call[0])
 
         def interference():
@@ -377,12 +407,26 @@ class C05:
                     j = next((k for k, (a, b) in enumerate(zip(far, json.loads(json.dumps(want)))) if a != b), 0)
                     vios.setdefault("proc", vio("stream_depends_on_process", f"CobaRandom({c['seed']!r}) call #{j} {c['script'][j]}: this interpreter "
                                                                             f"(PYTHONHASHSEED=0) gives {want[j]!r}, another interpreter (PYTHONHASHSEED=31337) gives {far[j]!r}"))
+            hit = next((k for k, o in enumerate(got) if o == ("i",)), None)
+            if hit is not None:
+                # a call was interrupted: where the stream continues is not defined, that it continues is.  Every later call must still work
+                for k in range(hit + 1, len(got)):
+                    o, call = got[k], c["script"][k]
+                    dead = (o[0] == "e" and o[1] in ("StopIteration", "RuntimeError", "IndexError")) or \
+                           (o[0] == "v" and call[0] in ("randoms", "randints", "gausses") and call[1][0] > 0 and len(o[1]) < call[1][0])
+                    if dead:
+                        vios.setdefault("dead", vio("stream_dead_after_interrupt", f"caller {i} seed={c['seed']!r}: a Ctrl-C inside call #{hit} {c['script'][hit][0]} "
+                                                    f"and from then on call #{k} {call[0]} gives {o!r}", key="stream_dead_after_ctrl_c_inside_call"))
+                        break
+                got, want = got[:hit], want[:hit]
             if got != want:
                 j = next((k for k, (a, b) in enumerate(zip(got, want)) if a != b), min(len(got), len(want)))
                 vios.setdefault("dep", vio("stream_depends_on_environment",
                                            f"caller {i} seed={c['seed']!r} call #{j} {c['script'][j] if j < len(c['script']) else None}: "
                                            f"interleaved {got[j] if j < len(got) else None!r} vs solo {want[j] if j < len(want) else None!r}"))
             for call, w in zip(c["script"], want):
+                if call[0] == "ctrl_c":
+                    continue
                 res["counters"]["contract_checks"] = res["counters"].get("contract_checks", 0) + 1
                 if w[0] == "e":
                     legit = (call[0] in ("choice", "choicew") and not call[1][0])
